@@ -14,7 +14,7 @@ UNIT = dict(
     properties=['C06'],
     prelude=['arch64.rs'],
     rlimit=80,
-    types=[dict(file='src/encryption/rc4.rs', kind='struct', name='Rc4'), dict(file=A, kind='const', name='PAD_BYTES'), dict(file=A, kind='struct', name='PasswordAlgorithm')],
+    types=[dict(file='src/encryption/rc4.rs', kind='struct', name='Rc4'), dict(file=A, kind='const', name='PAD_BYTES'), dict(file=A, kind='struct', name='PasswordAlgorithm', subst=[dict(rule='R12', lit='pub(crate) ', to='pub ', note='visibility is irrelevant inside the generated module')])],
     spec=['../crypt/spec.rs', 'spec.rs'],
     functions=[
         RC4('new'), RC4('apply_keystream'), RC4('decrypt'), RC4('encrypt'),
@@ -91,6 +91,35 @@ UNIT = dict(
             dict(rule='R5', lit='Rc4::new(&key).encrypt(&result)', to='Rc4::new(key.as_slice()).encrypt(result.as_slice())', count=1, note='&Vec<u8> as &[u8]'),
             dict(rule='R5', lit='result.resize(32, 0);', to='resize_zero(&mut result, 32);', count=1, note='Vec::resize shim'),
             dict(rule='R5', pat=r'let mut rng = rand::rng\(\);\s*rng\.fill\(&mut result\[16\.\.\]\);', to='fill_random_from(&mut result, 16);', count=1, note='rand: the bytes from 16 on become arbitrary (shim)'),
+        ])),
+        dict(file=A, impl='PasswordAlgorithm', name='authenticate_user_password_r4', rules=dict(no_sink=True, raw_sig=True, pre_subst=[
+            dict(rule='R11', pat=r'fn authenticate_user_password_r4<U>\(\s*&self,\s*doc: &Document,\s*user_password: U,\s*\) -> Result<\(\), DecryptionError>\s*where\s*U: AsRef<\[u8\]>,\s*\{', to='fn authenticate_user_password_r4(&self, doc: &Document, user_password: &[u8]) -> (r: core::result::Result<(), DecryptionError>)\n    {', count=1, note='AsRef<[u8]> at &[u8]; result named'),
+            dict(rule='R11', lit='(doc, &user_password)', to='(doc, user_password)', count=2, note='AsRef<[u8]> at &[u8]: &U passed on as the slice'),
+        ], subst=[
+            dict(rule='R5', lit='hashed_user_password[..len] != self.user_value[..len]', to='!prefix_eq(&hashed_user_password, &self.user_value, len)', count=1, note='comparison of two sub-slices: shim'),
+        ])),
+        dict(file=A, impl='PasswordAlgorithm', name='recover_user_password_r4', rules=dict(no_sink=True, raw_sig=True, loops={1: dict(kind='keep'), 2: dict(kind='index', limit='min_len(keysrc, &key)')}, pre_subst=[
+            dict(rule='R11', pat=r'fn recover_user_password_r4<O>\(\s*&self,\s*owner_password: O,\s*\) -> Result<Vec<u8>, DecryptionError>\s*where\s*O: AsRef<\[u8\]>,\s*\{', to='fn recover_user_password_r4(&self, owner_password: &[u8]) -> (r: core::result::Result<Vec<u8>, DecryptionError>)\n    {', count=1, note='AsRef<[u8]> at &[u8]; result named'),
+            dict(rule='R11', lit='let password = owner_password.as_ref();', to='let password = owner_password;', count=1, note='AsRef<[u8]> at &[u8]'),
+            dict(rule='R5', pat=r'for _ in ([^{]+?) \{', to=r'for __i in \1 {', note='`_` loop variable named'),
+            dict(rule='R2', lit='for i in (1..=19).rev() {', to='let mut __r: u8 = 20;\n            while __r > 1 {\n                __r -= 1;\n                let i = __r;', count=1, note='descending inclusive range as a while loop: i = 19, 18, .., 1'),
+            dict(rule='R10', pat=r'for \(in_byte, out_byte\) in (\S+)\.iter\(\)\.zip\(key\.iter_mut\(\)\) \{', to=r'for (in_byte, out_byte) in \1_zip_key {', count=1, note='zip template (index loop over the shorter length)'),
+        ], subst=[
+            dict(rule='R5', pat=r'(\w+)\.len\(\)\.min\(32\)', to=r'min_usize(\1.len(), 32)', count=1, note='usize::min shim'),
+            dict(rule='R5', lit='hasher.update(&password[..len]);', to='hasher.update(prefix(password, len));', count=1, note='sub-slice shim'),
+            dict(rule='R5', lit='hasher.update(&PAD_BYTES[..32 - len]);', to='hasher.update(prefix(PAD_BYTES.as_slice(), 32 - len));', count=1, note='sub-slice shim on the constant'),
+            dict(rule='R5', lit='Md5::digest(hash)', to='Md5::digest(hash.as_slice())', optional=True, note='GenericArray as &[u8]'),
+            dict(rule='R5', pat=r'Md5::digest\(&hash\[\.\.(\w+)\]\)', to=r'Md5::digest(prefix(hash.as_slice(), \\1))', optional=True, note='sub-slice shim'),
+            dict(rule='R5', lit='self.length.unwrap_or(40) / 8', to='unwrap_or_usize(self.length, 40) / 8', count=1, note='Option::unwrap_or shim'),
+            dict(rule='R5', lit='self.owner_value.to_vec()', to='self.owner_value.as_slice().to_vec()', count=1, note='Vec<u8>::to_vec through the slice'),
+            dict(rule='R10', lit='let mut key = vec![0u8; n];', to='let mut key = zeros(n);\n            let keysrc = prefix(hash.as_slice(), n);', count=1, note='vec![0; n] shim; zip template: the zipped sub-slice hash[..n] is named'),
+            dict(rule='R10', lit='*out_byte = in_byte ^ i;', to='key[__k2 - 1] = keysrc[__k2 - 1] ^ i;', count=1, note='zip template: element k of both'),
+            dict(rule='R5', lit='Rc4::new(&key).decrypt(&result)', to='Rc4::new(key.as_slice()).decrypt(result.as_slice())', count=1, note='&Vec<u8> as &[u8]'),
+            dict(rule='R5', lit='Rc4::new(&hash[..n]).decrypt(&result)', to='Rc4::new(prefix(hash.as_slice(), n)).decrypt(result.as_slice())', count=1, note='sub-slice shim'),
+        ])),
+        dict(file=A, impl='PasswordAlgorithm', name='authenticate_owner_password_r4', rules=dict(no_sink=True, raw_sig=True, pre_subst=[
+            dict(rule='R11', pat=r'fn authenticate_owner_password_r4<O>\(\s*&self,\s*doc: &Document,\s*owner_password: O,\s*\) -> Result<\(\), DecryptionError>\s*where\s*O: AsRef<\[u8\]>,\s*\{', to='fn authenticate_owner_password_r4(&self, doc: &Document, owner_password: &[u8]) -> (r: core::result::Result<(), DecryptionError>)\n    {', count=1, note='AsRef<[u8]> at &[u8]; result named'),
+            dict(rule='R11', lit='self.authenticate_user_password_r4(doc, &result)', to='self.authenticate_user_password_r4(doc, result.as_slice())', count=1, note='&Vec<u8> as &[u8]'),
         ])),
         dict(file=E, impl='Permissions', name='p_value', rules=dict(no_sink=True)),
     ],
